@@ -61,6 +61,7 @@ type Thread struct {
 	desc        string
 	obj         unsafe.Pointer
 	cond        func() bool
+	idle        bool // enabled only when no other thread is
 	cases       []*Case
 	hasDef      bool
 	resIdx      int
@@ -444,6 +445,9 @@ func (s *Sched) Run() *Result {
 		var en []*Thread
 		curEnabled := false
 		for _, t := range s.threads {
+			if t.idle && !t.done {
+				continue
+			}
 			if s.enabled(t) {
 				if t == s.cur {
 					curEnabled = true
@@ -454,6 +458,14 @@ func (s *Sched) Run() *Result {
 		}
 		if curEnabled {
 			en = append([]*Thread{s.cur}, en...)
+		}
+		if len(en) == 0 {
+			// threads waiting for quiescence run before time passes
+			for _, t := range s.threads {
+				if t.idle && !t.done {
+					en = append(en, t)
+				}
+			}
 		}
 		if len(en) == 0 {
 			if s.fireTimer() {
@@ -816,4 +828,22 @@ func AccessV[T any](obj T, name string, write bool) T {
 func Zero[T any](p *T) {
 	var z T
 	*p = z
+}
+
+// Quiesce parks the current thread until no other thread can run (timers do
+// not count: time does not pass while a thread waits for quiescence).
+func Quiesce() {
+	s := S
+	if s == nil {
+		return
+	}
+	t := s.cur
+	if s.abort {
+		t.park()
+		return
+	}
+	t.kind, t.desc, t.obj, t.cond, t.cases = opYield, "quiesce", nil, nil, nil
+	t.idle = true
+	t.park()
+	t.idle = false
 }
